@@ -296,6 +296,8 @@ func (e *Engine) globalModel(st *State, g *ssa.Global) (Value, bool) {
 	switch name {
 	case "encoding/base64.StdEncoding", "encoding/base64.URLEncoding", "encoding/base64.RawURLEncoding", "encoding/base64.RawStdEncoding":
 		return Ptr{obj: st.newObj(OpaqueV{kind: "b64enc", data: name})}, true
+	case "crypto/rand.Reader":
+		return IfaceV{t: e.namedType("io", "Reader"), v: OpaqueV{kind: "cryptoreader"}}, true
 	case "io.EOF", "github.com/redis/go-redis/v9.Nil", "net/http.ErrUseLastResponse":
 		return e.newErrorOnce(name), true
 	}
